@@ -547,7 +547,7 @@ impl<'a, S: BitmapSlice> ZeroCopyReader for ZcReader<'a, S> { }
                      'emit_ok(old(self).w.id@, err_reply(old(self).in_header.unique, err)) // [C03.reply_error.bytes]'],
            ensures=FRAME + ['''match r { Ok(n) => final(self).w.emitted@.len() == 1 && final(self).w.emitted@[0] == err_reply(old(self).in_header.unique, err) && n == 16, Err(_) => final(self).w.emitted@.len() == 0 } // [C01.reply_error.one]'''],
            splices=[('^', 'after', 'broadcast use axiom_sbytes_len, axiom_decode_encode; proof { lemma_err_reply_frame(self.in_header.unique, err); reveal(errno_reply); }'),
-                    ('||', 'closure', '|| -> (k: i32) ensures k == spec_kind_errno(err.skind())'),
+                    ('||', 'closure', '|| -> (k: i32) ensures k == spec_kind_errno(err.skind())', '|| encode_io_error_kind('),
                     ('|_v|', 'closure', '|_v: usize| -> (q: usize) ensures q == 16')],
            props=['C01'], canary=True),
         Fn(SYNC, CTX, 'reply_error',
